@@ -9,7 +9,7 @@ RULE = ("histories Init / Create slot (coroutine class -> frame size as the comp
         "without promise_extra_storage on top; boundary programs (equal size after warm-up, exact fit, one byte short, growth while other "
         "frames live) + random histories + a malformed stream; every case closed by finishing all frames and destroying the storage. "
         "st_mtc: 1-5 real threads on one reusable_storage_mtsafe under controlled schedules (random, bursty, last-first; thorough adds "
-        "every schedule of small configurations). non-trivial (sequential) = at least 3 frames created; (st_mtc) = at least 3 thread "
+        "every schedule of small configurations). non-trivial (sequential) = at least 3 frames created; (st_mtc/st_mtr) = at least 3 thread "
         "switches in the executed trace; distinct = distinct op list")
 SCOPE = ("default_storage, reusable_storage, reusable_storage_mtsafe (alloc/dealloc, _busy, trailer), stack_storage, placement_alloc, "
          "reusable_buffer_storage<std::vector>, promise_extra_storage<T,Base>, custom_allocator_base operator new/delete; "
@@ -36,17 +36,17 @@ def sizes():
         if not ok:
             raise RuntimeError("seq_storage.cpp does not build: " + msg[-2000:])
         out = subprocess.run([binary, "--sizes"], stdout=subprocess.PIPE, timeout=60).stdout.decode().split("\n")
-        x, tbl = 0, {}
+        xs, tbl = [], {}
         for l in out:
             a = l.split()
-            if len(a) == 2 and a[0] == "x": x = int(a[1])
+            if len(a) == 3 and a[0] == "x": xs.append((int(a[1]), int(a[2])))
             elif len(a) == 2: tbl[int(a[0])] = int(a[1])
-        _sizes = (x, tbl)
+        _sizes = (xs, tbl)
     return _sizes
 
 
 def close_case(c):
-    if c.engine == "st_mtc":
+    if c.engine in ("st_mtc", "st_mtr"):
         return c
     ops = [o for o in c.ops if o != [9]] if c.meta.get("strip_destroy") else list(c.ops)
     slots = []
@@ -59,20 +59,22 @@ def close_case(c):
 def init_for(rng, eng, x, tbl):
     szs = sorted(tbl.values())
     if eng in ("st_def", "st_reu", "st_mts"):
-        return [0, rng.choice([0, x]), 0, 0]
+        xx, al = rng.choice([(0, 8), (0, 8)] + list(x))
+        return [0, xx, 0, 0, al] if xx else [0, 0, 0, 0]
     if eng == "st_stk":
         s = rng.choice(szs)
         return [0, 0, rng.choice([0, 0, s, s + 1, s + 2, szs[-1] + 1, 50]), 0]
     if eng == "st_plc":
         s = rng.choice(szs)
         return [0, 0, rng.choice([s, s - 1, s + 1, szs[-1], szs[-1] + 64]), 0]
-    a = rng.choice([1, 8])
+    a = rng.choice([1, 8, 3, 7, 24])
     s = rng.choice(szs)
     return [0, 0, a, rng.choice([0, 0, 3, s // a, s // a + 1, (s + a - 1) // a, 2 * s // a])]
 
 
 def gen_random(rng, eng, name, x, tbl, nops):
-    ks = sorted(tbl)
+    order = sorted(tbl, key=lambda k: (tbl[k], k))   # classes by frame size
+    ks = list(range(len(order)))
     ops = [init_for(rng, eng, x, tbl)]
     live = set()
     bias = rng.choice(["grow", "shrink", "same", "mix"])
@@ -82,13 +84,13 @@ def gen_random(rng, eng, name, x, tbl, nops):
         free = [s for s in range(6) if s not in live]
         may_create = free and (eng not in SINGLE or not live or r < 0.04)
         if may_create and (r < 0.55 or not live):
-            if bias == "grow": k = min(ks[-1], last + rng.choice([0, 1, 1, 2]))
-            elif bias == "shrink": k = max(0, last - rng.choice([0, 1, 1, 2]))
+            if bias == "grow": k = min(ks[-1], last + rng.choice([0, 1, 2, 3, 5]))
+            elif bias == "shrink": k = max(0, last - rng.choice([0, 1, 2, 3, 5]))
             elif bias == "same": k = last if rng.random() < 0.7 else rng.choice(ks)
             else: k = rng.choice(ks)
             last = k
             s = rng.choice(free)
-            ops.append([1, s, k, tbl[k]])
+            ops.append([1, s, order[k], tbl[order[k]]])
             if eng not in SINGLE or not live:
                 live.add(s)
         elif live:
@@ -106,29 +108,30 @@ def gen_random(rng, eng, name, x, tbl, nops):
 
 
 def boundary(x, tbl):
-    ks = sorted(tbl)
+    order = sorted(tbl, key=lambda k: (tbl[k], k))
+    ks = list(range(len(order)))
     out = []
     b = [0]
     def add(eng, ops):
         out.append(close_case(Case(eng, "b%d" % b[0], ops))); b[0] += 1
-    def cr(s, k): return [1, s, k, tbl[k]]
-    for xx in (0, x):
+    def cr(s, k): return [1, s, order[k], tbl[order[k]]]
+    for xx, xal in [(0, 8)] + list(x):
         # reusable: equal size after warm-up, smaller, larger, one class larger
         for k in ks:
             k2 = min(ks[-1], k + 1); k0 = max(0, k - 1)
-            add("st_reu", [[0, xx, 0, 0], cr(0, k), [2, 0], cr(0, k), [2, 0], cr(1, k0), [2, 1], cr(0, k2), [2, 0], cr(0, k), [2, 0]])
+            add("st_reu", [[0, xx, 0, 0, xal], cr(0, k), [2, 0], cr(0, k), [2, 0], cr(1, k0), [2, 1], cr(0, k2), [2, 0], cr(0, k), [2, 0]])
             # thread-safe variant used sequentially: second/third frame while the block is taken, then reuse, then growth
-            add("st_mts", [[0, xx, 0, 0], cr(0, k), cr(1, k), cr(2, k0), [2, 0], cr(3, k), [2, 1], [2, 3], cr(0, k2), cr(4, k2), [2, 2], [2, 0], cr(5, k), [2, 4], [2, 5]])
-            add("st_mts", [[0, xx, 0, 0], cr(0, k), [2, 0], cr(0, k), cr(1, k2), [2, 1], [2, 0], cr(1, k2), [2, 1], cr(2, k)])
-            add("st_def", [[0, xx, 0, 0], cr(0, k), cr(1, k), [2, 0], cr(0, k2), [2, 1], [2, 0]])
+            add("st_mts", [[0, xx, 0, 0, xal], cr(0, k), cr(1, k), cr(2, k0), [2, 0], cr(3, k), [2, 1], [2, 3], cr(0, k2), cr(4, k2), [2, 2], [2, 0], cr(5, k), [2, 4], [2, 5]])
+            add("st_mts", [[0, xx, 0, 0, xal], cr(0, k), [2, 0], cr(0, k), cr(1, k2), [2, 1], [2, 0], cr(1, k2), [2, 1], cr(2, k)])
+            add("st_def", [[0, xx, 0, 0, xal], cr(0, k), cr(1, k), [2, 0], cr(0, k2), [2, 1], [2, 0]])
     for k in ks:
-        s = tbl[k]
+        s = tbl[order[k]]
         k2 = min(ks[-1], k + 1); k0 = max(0, k - 1)
         for a in (0, s, s + 1, s + 2):
             add("st_stk", [[0, 0, a, 0], cr(0, k), cr(1, k), [2, 0], cr(0, k0), cr(2, k2), [2, 1], [2, 0], cr(3, k2), cr(4, k)])
         for p in (s - 1, s, s + 1):
             add("st_plc", [[0, 0, p, 0], cr(0, k), [2, 0], cr(1, k0), [2, 1], cr(0, k2), [2, 0], cr(0, k)])
-        for a in (1, 8):
+        for a in (1, 8, 3, 7, 24):
             for n0 in (0, (s + a - 1) // a, (s + a - 1) // a - 1, (s + a - 1) // a + 1, s // a // 2 + 1):
                 add("st_buf", [[0, 0, a, n0], cr(0, k), [2, 0], cr(0, k), [2, 0], cr(0, k2), [2, 0], cr(1, k0), [2, 1], cr(0, ks[-1]), [2, 0], cr(0, k2)])
     return out
@@ -146,14 +149,15 @@ def gen(seed, tier):
 
 
 # ---------------------------------------------------------------- st_mtc
-def mk_mt(name, progs, sched):
+def mk_mt(name, progs, sched, eng="st_mtc"):
     ops = [[2] + [v for a in p for v in a] for p in progs] + [[9] + list(sched)]
-    return Case("st_mtc", name, ops)
+    return Case(eng, name, ops)
 
 
 def gen_mt(seed, tier):
     x, tbl = sizes()
-    ks = sorted(tbl)
+    order = sorted(tbl, key=lambda k: (tbl[k], k))
+    ks = list(range(len(order)))
     rng = random.Random(seed * 15485863 + 191)
     n = 450 if tier == "quick" else 5000
     cases = []
@@ -167,9 +171,9 @@ def gen_mt(seed, tier):
                 if live and rng.random() < 0.45:
                     p.append([rng.choice([-1, -1, -2]), 0]); live -= 1
                 else:
-                    k = min(ks[-1], max(0, base + rng.choice([-1, 0, 0, 1, 1, 2])))
+                    k = min(ks[-1], max(0, base + rng.choice([-2, -1, 0, 0, 1, 2, 3, 5])))
                     base = k
-                    p.append([k, tbl[k]]); live += 1
+                    p.append([order[k], tbl[order[k]]]); live += 1
             if rng.random() < 0.05: p.append([-1, 0])          # finish with nothing left: dropped on both sides
             if rng.random() < 0.05: p.insert(0, [0, 0])        # size 0: dropped on both sides
             progs.append(p)
@@ -180,10 +184,30 @@ def gen_mt(seed, tier):
             sched = []
             while len(sched) < L: sched += [rng.randint(0, 5)] * rng.randint(1, 4)
         else: sched = [rng.choice([5, 4, 3, 0]) for _ in range(L)]
-        cases.append(mk_mt("m%d" % i, progs, sched))
+        cases.append(mk_mt("m%d" % i, progs, sched, "st_mtr" if i % 2 else "st_mtc"))
+    # aimed at the window inside reusable_storage::alloc (busy_n): a holder regrowing the block while other threads take and
+    # return heap blocks of exactly the size of the block just deleted; recycling allocator, random schedules
+    na = 350 if tier == "quick" else 4000
+    for i in range(na):
+        a = rng.randrange(0, len(ks) - 4); b = rng.randrange(a + 1, len(ks))
+        small, big = [order[a], tbl[order[a]]], [order[b], tbl[order[b]]]
+        F = [-1, 0]
+        nt = rng.choice([3, 3, 4])
+        progs = [[small, F, big] + ([F, small] if rng.random() < 0.5 else [])]
+        for t in range(nt - 1):
+            p = []
+            for _ in range(rng.randint(1, 3)):
+                p += [small if rng.random() < 0.8 else big, F] if rng.random() < 0.7 else [small, small, F, F]
+            progs.append(p)
+        L = rng.choice([10, 16, 24, 32])
+        if rng.random() < 0.5: sched = [rng.randint(0, 5) for _ in range(L)]
+        else:
+            sched = []
+            while len(sched) < L: sched += [rng.randint(0, 5)] * rng.randint(1, 3)
+        cases.append(mk_mt("a%d" % i, progs, sched, "st_mtr"))
     # systematic: every schedule of small two- and three-thread configurations
-    k0, k1, k2 = ks[1], ks[3], ks[5]
-    C = lambda k: [k, tbl[k]]
+    k0, k1, k2 = ks[3], ks[10], ks[16]
+    C = lambda k: [order[k], tbl[order[k]]]
     F = [-1, 0]
     cfgs = [([[C(k0), F, C(k1), F], [C(k0), F, C(k0), F]], 2, 11 if tier == "quick" else 14),
             ([[C(k1), F], [C(k2), F], [C(k0), F]], 3, 7 if tier == "quick" else 9),
@@ -192,12 +216,12 @@ def gen_mt(seed, tier):
     for progs, width, depth in cfgs:
         if not depth: continue
         for pre in itertools.product(range(width), repeat=depth):
-            cases.append(mk_mt("x%d" % j, progs, pre)); j += 1
+            cases.append(mk_mt("x%d" % j, progs, pre, "st_mtr" if j % 2 else "st_mtc")); j += 1
     return cases
 
 
 def nontrivial(case, model_obs):
-    if case.engine == "st_mtc":
+    if case.engine in ("st_mtc", "st_mtr"):
         tids = [l.split()[0] for l in model_obs if len(l.split()) == 2]
         return sum(1 for a, b in zip(tids, tids[1:]) if a != b) >= 3
     creates = 0
@@ -211,6 +235,10 @@ def signature(case, impl_obs, model_obs):
     last = impl_obs[-1] if impl_obs else ""
     if last.startswith("CRASH"):
         kind = last.split()[1] if len(last.split()) > 1 else "crash"
+        # promise_extra_storage places T at ptr+sz without regard to alignof(T) (fixes/C19-extra-align.patch): one input class
+        init = [o for o in case.ops if len(o) == 5 and o[0] == 0]
+        if "misaligned" in kind and init and init[0][1] > 0 and (init[0][4] > 8 or init[0][1] % 8):
+            return "extra-object-misaligned"
     elif last == "HANG":
         kind = "HANG"
     else:
